@@ -131,6 +131,33 @@ def check(ctx):
                 ctx.undecided("R-ALIAS/digits-unchanged", construct, f"{m.rel}:{st_.lineno}", f"input normalisation `{txt}` not recognised",
                               key="normalise")
 
+    # every digit string reaches the pair loop: the part of each codec before its loop is evaluated (term interpreter, concrete
+    # witness inputs incl. the boundary value zero in both of its forms) and must not return early for a non-empty number
+    ctx.clause = "1c-no-early-exit"
+    from .. import sym as _sw
+    for fn in (enc, dec):
+        p0 = fn.args.args[0].arg
+        construct = f"bromelia.utils.{fn.name}"
+        witnesses = [0, 7, 10, "0", "00", "7", "12"] if fn is enc else ["0f", "1f", "21", "00"]
+        lps = [n for n in walk_no_nested(fn) if isinstance(n, (ast.While, ast.For))]
+        if len(lps) != 1:
+            continue
+        bad = []
+        for w in witnesses:
+            try:
+                paths = _sw.Interp(fold=lambda e: repo.fold(m, e)).run(strip_doc(fn.body), _sw.PathState({p0: w}, [], []))
+            except _sw.TooMany:
+                continue
+            for p_ in paths:
+                reached = any(e[0] == "loop" and e[2] is lps[0] for e in p_.effects)
+                if not reached and p_.term in ("return", "fall"):
+                    bad.append((w, _sw.show(p_.value) if p_.term == "return" else None))
+        ctx.decide(not bad, "R-RET/early-exit", construct, f"{m.rel}:{fn.lineno}",
+                   f"inputs {witnesses} all reach the pair loop",
+                   f"for input(s) {sorted(set(map(str, bad)))[:4]} (input, returned value) the function returns before its pair loop: a number "
+                   f"is mapped to a constant instead of its digits (e.g. the integer 0 is falsy but its digit string is '0'), so "
+                   f"decode(encode(n)) != n for it", key="early_exit")
+
     ctx.clause = "2-codec-symmetry"
     # One iteration of each codec loop on terms (bsa.sym): P = the pair taken at the current offset (the helper that takes it
     # is inlined by the interpreter), REV(P) = P[::-1].  What is compared is what each branch appends and how far it advances.
